@@ -45,6 +45,7 @@ type Exec struct {
 	foot     *footprint
 	misc     map[string]Value
 	crashAt   string
+	regexps   map[*Value]string
 	allocHook func(instr *ssa.MakeSlice, elem types.Type, n sym.Sc)
 }
 
